@@ -339,6 +339,18 @@ fn native_one<T: Nat>(cfg: &RunCfg, extra: &mut Extra, lo_exp: i32, hi_exp: i32)
         }
         let back: Deg<T> = Rad::from(Deg(x)).into();
         let rel = ((back.0.to64() - x.to64()) / x.to64()).abs();
+        // degrees shrink on the way to radians, so this direction has no overflow
+        // anywhere below MAX/2: probe the top of the range as well
+        {
+            let top = <T as Float>::max_value() * T::from64(rng.uniform(0.01, 0.49)) * T::from64(if rng.bool() { 1.0 } else { -1.0 });
+            let r: Rad<T> = Deg(top).into();
+            let b2: Deg<T> = r.into();
+            let rel2 = ((b2.0.to64() - top.to64()) / top.to64()).abs();
+            if !(rel2 <= 4.0 * T::EPS) || !r.0.is_finite() {
+                fail("roundtrip", format!("Deg({top:?}) -> Rad = {:?} -> Deg = {:?}: not within 4 eps near the top of the range", r.0, b2.0), json!({"x": top.to64()}), extra);
+                break;
+            }
+        }
         worst_rt = worst_rt.max(rel / T::EPS);
         if !(rel <= 4.0 * T::EPS) {
             fail("roundtrip", format!("Deg({x:?}) -> Rad -> Deg = {:?}: relative error {:.2} eps", back.0, rel / T::EPS), json!({"x": x.to64()}), extra);
